@@ -240,23 +240,92 @@ def rule_usable_condition(ctx):
     fn = tu.func('reb_read_simulationarchive_from_stream_with_messages')
     n = 0
     found = False
-    for ifs in walk(cfront.body(fn)):
-        if ifs.get('kind') == 'IfStmt' and render(ifs['inner'][0]) == 'read_error':
-            for inner in walk(ifs['inner'][1]):
-                if inner.get('kind') == 'IfStmt' and 'sa.nblobs' in render(inner['inner'][0]):
-                    found = True
-                    n += 1
-                    c = render(inner['inner'][0]).replace(' ', '')
-                    if c not in ('(sa.nblobs>0)', '(sa.nblobs>=1)', '(sa.nblobs!=0)'):
-                        ctx.report('R07.8', 'index:usable', 'src/simulationarchive.c:%s reb_read_simulationarchive_from_stream_with_messages' % line_of(inner),
-                                   'after a read error the archive is kept only if %s: completed snapshots are thrown away although at least one is intact' % c)
-                    # the usable branch only warns; the other branch sets an ERROR bit
-                    then_txt = ' '.join(render(e['inner'][1]) for e in walk(inner['inner'][1]) if is_assign(e))
-                    else_txt = ' '.join(render(e['inner'][1]) for e in walk(inner['inner'][2]) if is_assign(e)) if len(inner['inner']) > 2 else ''
-                    if '_WARNING_' not in then_txt or '_ERROR_' in then_txt:
-                        ctx.report('R07.8', 'index:usable:warn', 'src/simulationarchive.c:%s' % line_of(inner), 'a partially readable archive must only raise a warning bit (%s)' % then_txt)
-                    if '_ERROR_' not in else_txt:
-                        ctx.report('R07.8', 'index:empty:error', 'src/simulationarchive.c:%s' % line_of(inner), 'an archive without any complete snapshot does not set an error bit')
+    # by path conditions (nested ifs, `a && b`, `!= 0` spellings alike): the assignments of warning/error bits that are reached
+    # with read_error set
+    from . import pathcond
+
+    def atoms(cs):
+        out = []
+        for c in cs:
+            c = c.strip()
+            while c.startswith('(') and c.endswith(')') and c.count('(') == c.count(')') and '&&' in c and not c.startswith('!('):
+                inner = c[1:-1]
+                depth = 0
+                ok = True
+                for ch in inner:
+                    depth += ch == '('
+                    depth -= ch == ')'
+                    if depth < 0:
+                        ok = False
+                        break
+                if not ok:
+                    break
+                c = inner
+            parts, depth, cur = [], 0, ''
+            k = 0
+            while k < len(c):
+                if c[k] == '(':
+                    depth += 1
+                elif c[k] == ')':
+                    depth -= 1
+                if depth == 0 and c[k:k + 2] == '&&':
+                    parts.append(cur)
+                    cur = ''
+                    k += 2
+                    continue
+                cur += c[k]
+                k += 1
+            parts.append(cur)
+            out += [x.strip() for x in parts]
+        norm = []
+        for a in out:
+            while a.startswith('(') and a.endswith(')'):
+                a = a[1:-1]
+            if a.endswith('!=0') and a.count('=') == 1:
+                a = a[:-3]
+            norm.append(a)
+        # !(x && y) together with x gives !y
+        more = []
+        for a in norm:
+            if a.startswith('!(') and a.endswith(')') and '&&' in a:
+                inner = atoms([a[1:]])
+                known = [x for x in inner if x in norm]
+                rest = [x for x in inner if x not in norm]
+                if known and len(rest) == 1:
+                    more.append('!(%s)' % rest[0])
+        return norm + more
+    pcs = pathcond.conditions(fn)
+    usable = {'sa.nblobs>0', 'sa.nblobs>=1', 'sa.nblobs', 'sa.nblobs!=0', '0<sa.nblobs'}
+    unusable = {'sa.nblobs<=0', 'sa.nblobs<1', '!sa.nblobs', 'sa.nblobs==0', '!(sa.nblobs>0)'}
+    seen_warn = seen_err = False
+    for e in walk(cfront.body(fn)):
+        if not (is_assign(e) and 'warnings' in render(e['inner'][0])):
+            continue
+        at = atoms(pcs.get(id(e), []))
+        if 'read_error' not in at:
+            continue
+        rhs = render(e['inner'][1])
+        nb = [a for a in at if 'sa.nblobs' in a and '&&' not in a]
+        if not nb:
+            continue
+        found = True
+        n += 1
+        where = 'src/simulationarchive.c:%s reb_read_simulationarchive_from_stream_with_messages' % line_of(e)
+        if any(a in usable for a in nb):
+            seen_warn = True
+            if '_WARNING_' not in rhs or '_ERROR_' in rhs:
+                ctx.report('R07.8', 'index:usable:warn', where, 'a partially readable archive must only raise a warning bit (%s)' % rhs)
+        elif any(a in unusable for a in nb):
+            seen_err = True
+            if '_ERROR_' not in rhs:
+                ctx.report('R07.8', 'index:empty:error', where, 'an archive without any complete snapshot does not set an error bit')
+        else:
+            ctx.report('R07.8', 'index:usable', where,
+                       'after a read error the archive is kept only if %s: completed snapshots are thrown away although at least one is intact' % ' && '.join(nb))
+    if found and not seen_warn:
+        ctx.report('R07.8', 'index:usable', 'src/simulationarchive.c reb_read_simulationarchive_from_stream_with_messages', 'after a read error no branch keeps an archive that has at least one complete snapshot (nblobs > 0)')
+    if found and not seen_err:
+        ctx.report('R07.8', 'index:empty:error', 'src/simulationarchive.c reb_read_simulationarchive_from_stream_with_messages', 'an archive without any complete snapshot does not set an error bit')
     anchor(found, 'the "read_error / nblobs" decision in the index builder')
     # sa->nblobs only grows after all tests of the snapshot passed
     sets = [e for e in walk(cfront.body(fn)) if is_assign(e) and render(e['inner'][0]) == 'sa.nblobs']
